@@ -50,7 +50,6 @@ CASE_TIMEOUT_S = 3000  # wall clock, generous: the machine may be shared
 WATCHDOG_S = {"quick": 3000, "thorough": 14400}
 
 CURVES = ("p256", "p384")
-COORD = {"p256": 32, "p384": 48}
 HASHLEN = {"p256": 32, "p384": 48}
 HASHNAME = {"p256": "sha256", "p384": "sha384"}
 COUNTER_IDS = {"none": 0, "nonsecure": 1, "secure": 2, "radio": 3, "snt": 4, "bootloader": 5}
@@ -224,16 +223,11 @@ def a16(n):
     return (n + 15) & ~15
 
 
-def data_len(s) -> int:
-    # a `value:` load is at most 8 bytes here, so its padded size is 16 whatever width SPSDK picks
-    return len(s["data"]) if "data" in s else 8
-
-
 def spec_size(s) -> int:
     """Serialized size by the format table (own arithmetic)."""
     name = s["cmd"]
     if "data" not in s and "value_le" in s:
-        s = dict(s, data=bytes(8))
+        s = dict(s, data=bytes(8))  # a `value:` load is at most 8 bytes here: padded size 16 whatever width SPSDK picks
     if name in ("erase", "copy", "fillMemory"):
         return 32
     if name in ("execute", "call", "configureMemory", "checkFwVersion", "reset"):
@@ -645,6 +639,8 @@ def judge(ctx, data, keys, par, specs, export_no, path, flips="quick", msign=Tru
         "image_type": 7 if par["nxp"] else 6, "block_size": 4 + 256 + hl, "cert_block_offset": 60 + hl,
         "description": par["description"].encode("ascii")[:16].ljust(16, b"\x00"), "block_count": stream_blocks(specs),
     }
+    if par["timestamp"] is None:
+        want.pop("timestamp")
     for k, v in want.items():
         if h[k] != v:
             ctx.violation(f"sb31-manifest-field{re}:{k}", {"export": export_no, "file": h[k], "input": v, "path": path})
@@ -798,7 +794,7 @@ def history(ctx, sb, keys, par, specs, n_exports, path, names, flips="quick", si
 
 
 # ---------------------------------------------------------------------------------- config building
-def build_config(ctx, rng, fam, facts, keys, par, specs, workdir, for_cli=False):
+def build_config(ctx, rng, fam, facts, keys, par, specs, workdir):  # noqa: ARG001
     """Write key / data files and return (config dict, adjusted specs, keys)."""
     import itertools
 
@@ -870,7 +866,10 @@ def build_config(ctx, rng, fam, facts, keys, par, specs, workdir, for_cli=False)
         cfg["containerConfigurationWord"] = num(rng, par["flags"])
     if par["description"] or rng.random() < 0.3:
         cfg["description"] = par["description"]
-    cfg["timestamp"] = num(rng, par["timestamp"])
+    if rng.random() < 0.9:
+        cfg["timestamp"] = num(rng, par["timestamp"])
+    else:
+        par = dict(par, timestamp=None)  # SPSDK takes the clock; the loader reads the value from the manifest
     out_cmds, out_specs = [], []
     for i, s in enumerate(specs):
         c, s2 = cfg_cmd(rng, s, workdir, facts["wraps"], uniq, keep_data=i == len(specs) - 1)
@@ -1021,6 +1020,9 @@ def run_case(case, ctx):  # noqa: C901
                 specs = [gen_spec(rng, n) for n in ALL_CMDS]
                 sb = build_api(rng, fams[0], keys, par, specs)
                 history(ctx, sb, keys, par, specs, 1, "api", ALL_CMDS, sig_extra={"all14": True})
+                # and the other extreme: no command at all (one block holding only the section header)
+                sb = build_api(rng, fams[0], keys, par, [])
+                history(ctx, sb, keys, par, [], 2, "api", ALL_CMDS, sig_extra={"empty": True})
         return
 
     if kind == "reexport_witness":
@@ -1139,7 +1141,7 @@ def run_case(case, ctx):  # noqa: C901
         names = tuple(n for n in facts["supported"] if n in ALL_CMDS)
         specs = gen_command_list(rng, names, end_mod=rng.randrange(256), blocks=core.pick(rng, [1, 2, 4]), n_cmds=core.pick(rng, [1, 2, 4]))
         wd = os.path.join(ctx.workdir, f"cli{case['k']}")
-        cfg, specs, keys, par = build_config(ctx, rng, fam, facts, keys, par, specs, wd, for_cli=True)
+        cfg, specs, keys, par = build_config(ctx, rng, fam, facts, keys, par, specs, wd)
         cfgfile = write(wd, "sb31.yaml", yaml.safe_dump(cfg), text=True)
         del SIGN_LOG[:]
         res = CliRunner().invoke(nxpimage.main, ["sb31", "export", "-c", cfgfile])
